@@ -22,7 +22,7 @@ ASSUMPTIONS = [
     "remotes emulated by a non-local FileSystem over local disk",
 ]
 MONITORS = "os.walk listings of every remote/cache before and after vs independently computed reachable/designated sets; pushed/failed counts vs objects that newly appeared; workspace walk after checkout"
-REQUIRED_COUNTERS = ["remote_loss_rounds", "remote_objects_lost", "fetches_from_read_only_remotes", "collect_given_a_view", "layout/tops-only", "layout/root+deep", "layout/root+tops", "lazy_index_cases", "pushes", "fetches", "failure_rounds", "retries", "checkouts_from_fetched_cache", "multi_prefix_cases", "role_fallback_checks",
+REQUIRED_COUNTERS = ["cases_with_verifying_remotes", "cases_with_an_empty_prefix", "remote_loss_rounds", "remote_objects_lost", "fetches_from_read_only_remotes", "collect_given_a_view", "layout/tops-only", "layout/root+deep", "layout/root+tops", "lazy_index_cases", "pushes", "fetches", "failure_rounds", "retries", "checkouts_from_fetched_cache", "multi_prefix_cases", "role_fallback_checks",
                      "objects_designation_checked", "shared_cache_cases", "exhaustive_subset_cases", "remote_index_cases"]
 
 
@@ -84,6 +84,10 @@ def run_shard(ctx):
             use_rindex = rng.random() < 0.5
             shared_tmp = rng.random() < 0.6
             as_view = rng.random() < 0.4  # hand collect() a filtered view of the index, as dvc does
+            verify_remotes = rng.random() < 0.25
+            if verify_remotes:
+                res.count("cases_with_verifying_remotes")
+            empty_prefix = rng.random() < 0.25  # a storage prefix (own cache and remote) that covers no entry of the index
             rng.shuffle(prefixes)  # registration order of the storages varies
             res.count(f"layout/{layout}")
             if lazy:
@@ -96,8 +100,13 @@ def run_shard(ctx):
                 rfs[name] = FaultyFS(page_size=rng.choice([None, 10]), jobs=rng.choice([1, 4]))
                 # remote indexes live under the repository's one tmp dir (shared by all remotes) or under one dir each
                 cfg = {"tmp_dir": os.path.join(d, "rtmp-shared" if shared_tmp else "rtmp-" + name)} if use_rindex else {}
+                if verify_remotes:
+                    cfg["verify"] = True  # fetch forwards the remote's setting
                 remotes[name] = env.remote_odb(os.path.join(d, "remote-" + name), fs=rfs[name], **cfg)
 
+            if empty_prefix:
+                prefixes.insert(rng.randrange(len(prefixes) + 1), ("nothing-tracked-here",))
+                res.count("cases_with_an_empty_prefix")
             pmap = {}
             for i, p in enumerate(prefixes):
                 cn = "c0" if shared_cache else f"c{i}"
